@@ -1065,6 +1065,8 @@ func (e *MetaCDC) newReplicateEntity(info *meta.TaskInfo) (*ReplicateEntity, err
 
 func (e *MetaCDC) startReplicateAPIEvent(replicateCtx context.Context, entity *ReplicateEntity) {
 	go func() {
+		// the loop serves every task of the target: a failure pauses the task of the event and goes on
+	eventLoop:
 		for {
 			select {
 			case <-replicateCtx.Done():
@@ -1081,12 +1083,12 @@ func (e *MetaCDC) startReplicateAPIEvent(replicateCtx context.Context, entity *R
 				}
 				if replicateAPIEvent.EventType == api.ReplicateError {
 					log.Warn("receive the error event", zap.Any("event", replicateAPIEvent), zap.String("task_id", taskID))
-					_ = e.pauseTaskWithReason(taskID, "fail to read the replicate event", []meta.TaskState{})
-					return
+					_ = e.pauseTaskWithReason(taskID, "fail to read the replicate event, err: "+replicateAPIEvent.Error.Error(), []meta.TaskState{})
+					continue
 				}
 				if !e.isRunningTask(taskID) {
 					log.Warn("not running task", zap.Any("event", replicateAPIEvent), zap.String("task_id", taskID))
-					return
+					continue
 				}
 				if replicateAPIEvent.EventType == api.ReplicateCreateCollection {
 					writeCallback := NewWriteCallback(e.metaStoreFactory, e.rootPath, taskID)
@@ -1110,7 +1112,7 @@ func (e *MetaCDC) startReplicateAPIEvent(replicateCtx context.Context, entity *R
 								zap.String("task_id", taskID),
 								zap.Error(err))
 							_ = e.pauseTaskWithReason(taskID, "fail to update start task position, err:"+err.Error(), []meta.TaskState{})
-							return
+							continue eventLoop
 						}
 					}
 				}
@@ -1120,7 +1122,7 @@ func (e *MetaCDC) startReplicateAPIEvent(replicateCtx context.Context, entity *R
 						zap.String("task_id", taskID),
 						zap.Error(err))
 					_ = e.pauseTaskWithReason(taskID, "fail to handle the replicate event, err: "+err.Error(), []meta.TaskState{})
-					return
+					continue
 				}
 				if replicateAPIEvent.EventType == api.ReplicateDropCollection {
 					writeCallback := NewWriteCallback(e.metaStoreFactory, e.rootPath, taskID)
@@ -1133,7 +1135,7 @@ func (e *MetaCDC) startReplicateAPIEvent(replicateCtx context.Context, entity *R
 							zap.String("task_id", taskID),
 							zap.Error(err))
 						_ = e.pauseTaskWithReason(taskID, "fail to delete collection position, err:"+err.Error(), []meta.TaskState{})
-						return
+						continue
 					}
 				}
 				metrics.APIExecuteCountVec.WithLabelValues(taskID, replicateAPIEvent.EventType.String()).Inc()
